@@ -262,7 +262,10 @@ Vanish04 == \* the argument name is unknown after the use (reading it is an erro
             \* the same name with values of two types in two uses: each use has its own scope
             \cup {<<u1, H(","), u2>> : u1 \in ArgUses, u2 \in ArgUses}
             \cup {<<Each("x", Var("xs"), <<u, H(";")>>, NoElse, 1), Assign("name", BoolL(TRUE), 1), P(Var("name"))>> : u \in ArgUses}
-Good04 == {[tree |-> Tree07(pb), page |-> "home", d |-> Data07, tags |-> <<"c04", "component-arguments">>] : pb \in Vanish04}
+\* 'loop' as an argument name: refused like every other way of binding that name (outside and inside a loop)
+LoopArg04 == {<<H("a"), Comp(Alias("plain"), <<Arg("loop", v)>>, <<>>, 1), H("z")>> : v \in {IntL(4), ObjL(<<>>), StrL("s")}}
+             \cup {<<Each("x", Var("xs"), <<Comp(Alias("plain"), <<Arg("name", Var("x")), Arg("loop", v)>>, <<>>, 1)>>, NoElse, 1)>> : v \in {IntL(4), Var("loop")}}
+Good04 == {[tree |-> Tree07(pb), page |-> "home", d |-> Data07, tags |-> <<"c04", "component-arguments">>] : pb \in Vanish04 \cup LoopArg04}
 
 (* ---------- C18: template names that themselves end in the extension (file layouts/base.tw.tw is the template layouts/base.tw) ---------- *)
 Dotted18 ==
